@@ -21,6 +21,7 @@ ASSUMPTIONS = ['firmware V2 block-creation layout: entries of (type:u8, id:u16);
                'for table variables the stored-type nibble may be the fetch type or the table type (the firmware ignores it)']
 REQUIRED = ['mon.configs_accepted', 'mon.configs_rejected', 'mon.create_messages', 'mon.append_messages',
             'mon.data_packets_decoded', 'mon.flag_checks', 'mon.readd_checks', 'mon.synclogger_samples',
+            'mon.rejected_then_readded_on_newer_firmware',
             'mon.boundary_26', 'mon.device_errors_injected']
 DESC_TIMEOUT = 900
 
@@ -113,18 +114,23 @@ def run(desc, ctx):
     # the library resolves default-typed variables in add_config and appends them after the explicitly typed ones
     specs = [sp for sp in specs if not (sp[0] == 'toc' and sp[2] is None)] + \
         [sp for sp in specs if sp[0] == 'toc' and sp[2] is None]
-    toc_type = {'%s.%s' % (g, n): t for (g, n, t) in dev.log_toc}
-    toc_id = {'%s.%s' % (g, n): i for i, (g, n, t) in enumerate(dev.log_toc)}
-    fetch_ids = []
-    for sp in specs:
-        if sp[0] == 'toc':
-            fetch_ids.append(TID[sp[2]] if sp[2] else toc_type.get(sp[1]))
-        else:
-            fetch_ids.append(TID[sp[2]])
-    known = all(sp[0] != 'toc' or sp[1] in toc_type for sp in specs)
-    payload = sum(SIZE[f] for f in fetch_ids if f is not None)
     period = desc['period']
-    ref_accept = known and 1 <= int(period / 10) <= 254 and payload <= 26
+
+    def plan():
+        toc_type = {'%s.%s' % (g, n): t for (g, n, t) in dev.log_toc}
+        toc_id = {'%s.%s' % (g, n): i for i, (g, n, t) in enumerate(dev.log_toc)}
+        fetch_ids = []
+        for sp in specs:
+            if sp[0] == 'toc':
+                fetch_ids.append(TID[sp[2]] if sp[2] else toc_type.get(sp[1]))
+            else:
+                fetch_ids.append(TID[sp[2]])
+        known = all(sp[0] != 'toc' or sp[1] in toc_type for sp in specs)
+        payload = sum(SIZE[f] for f in fetch_ids if f is not None)
+        ref_accept = known and 1 <= int(period / 10) <= 254 and payload <= 26
+        return toc_type, toc_id, fetch_ids, known, payload, ref_accept
+    toc_type, toc_id, fetch_ids, known, payload, ref_accept = plan()
+    known0 = known
     if payload in (26, 27) and known:
         ctx.count('mon.boundary_26')
     ob = {'data': [], 'added_cb': [], 'started_cb': [], 'error_cb': [], 'notes': [], 'flagchecks': [], 'sync': None,
@@ -164,6 +170,30 @@ def run(desc, ctx):
         ob['tx_at_reject'] = len([t for t in spec.tx[t0:] if (t[2] >> 4) == 5])
         ob['vars_after_add'].append([(v.name, v.fetch_as, v.type) for v in lc.variables])
         ob['first_id'] = lc.id
+        if ob['accept_exc'] is not None and desc['unknown_var'] and not known0 and desc.get('upgrade', True):
+            # the configuration was refused because this firmware lacks a variable; the application connects
+            # to a firmware that has it and adds the same configuration object again
+            cf.close_link()
+            s.sleep(0.3)
+            dev.log_toc.append(('nope', 'var', random.Random(desc['seed'] ^ 77).choice((1, 2, 3, 7))))
+            dev.log_crc = (dev.log_crc + 1) & 0xFFFFFFFF
+            done.clear()
+            cf.open_link(uri)
+            if not done.wait(300.0):
+                ob['problems'].append('reconnect failed')
+                return
+            s.sleep(0.2)
+            ob['upgraded'] = ob['accept_exc']
+            ob['accept_exc'] = None
+            t0 = len(spec.tx)
+            ob['ev0'] = len(dev.events)
+            try:
+                cf.log.add_config(lc)
+            except Exception as e:  # noqa
+                ob['accept_exc'] = type(e).__name__
+            ob['tx_at_reject'] = len([t for t in spec.tx[t0:] if (t[2] >> 4) == 5])
+            ob['vars_after_add'] = [[(v.name, v.fetch_as, v.type) for v in lc.variables]]
+            ob['first_id'] = lc.id
         if ob['accept_exc'] is not None:
             cf.close_link()
             return
@@ -272,6 +302,9 @@ def run(desc, ctx):
         V('log:' + ob['problems'][0].replace(' ', '-'), {})
         return
     shown = [(sp[0], sp[1], sp[2]) for sp in specs]
+    if ob.get('upgraded'):
+        ctx.count('mon.rejected_then_readded_on_newer_firmware')
+        toc_type, toc_id, fetch_ids, known, payload, ref_accept = plan()
     # ---- acceptance
     if ref_accept != (ob['accept_exc'] is None):
         V('log:config-%s' % ('wrongly-rejected' if ref_accept else 'wrongly-accepted'),
